@@ -10,14 +10,17 @@ PERSISTED = ["PublishAtLeastOnce", "PublishExactlyOnce", "PublishAtLeastOnceReta
 # which scenario families serve which property, and which clause prefixes a property owns
 FAMILIES = {
     "C01": ["out", "restart", "wrap"], "C02": ["restart", "restart", "wrap"], "C03": ["out", "restart"], "C04": ["in", "inrestart"],
-    "C05": ["out", "restart"], "C07": ["in"], "C10": ["connect", "req", "out", "in", "in"], "C11": ["req", "close"],
-    "C12": ["close"], "C13": ["hostile"], "C16": ["damage"], "C17": ["out", "restart", "req", "wrap"],
+    "C05": ["out", "restart"], "C07": ["in"], "C10": ["connect", "req", "out", "in", "in"], "C11": ["req", "close", "connect", "hostile"],
+    "C12": ["close"], "C13": ["hostile", "hostile", "in"], "C16": ["damage"], "C17": ["out", "restart", "req", "wrap"],
     "C18": ["connect", "connect", "out"], "C14": ["req", "close", "out", "connect"], "C08": ["req", "out"],
 }
 OWNS = {p: [p + "_"] for p in FAMILIES}
 OWNS["C13"] += ["C01_NoForgedCompletion", "C03_RelForUnknown"]
 OWNS["C14"] += ["C01_AcceptedIsSaved", "C01_ErrorMeansNotEnqueued"]
 OWNS["C09"] = ["C09_", "C08_WholePackets"]
+OWNS["C15"] = ["C15_"]
+FAMILIES["C15"] = ["out", "restart"]
+FAMILIES["C09"] = ["req", "out"]
 OWNS["C12"] += ["C13_NoPanic"]
 OWNS["C16"] += ["C13_NoPanic"]
 
@@ -140,6 +143,42 @@ def fam_connect(rnd, i, thorough):
     return b
 
 
+# (hex, is a protocol violation that must be answered with a reset, note)
+HOSTILE = [
+    ("0000", True, "reserved type 0"), ("f000", True, "reserved type 15"), ("1000", True, "CONNECT from broker"),
+    ("8200", True, "SUBSCRIBE from broker"), ("a200", True, "UNSUBSCRIBE from broker"), ("c000", True, "PINGREQ from broker"),
+    ("e000", True, "DISCONNECT from broker"), ("20020000", True, "second CONNACK"),
+    ("308380808000000174", True, "remaining length in 5 bytes"), ("30ffffffff7f", True, "remaining length in 5 bytes (max)"),
+    ("40020000", True, "PUBACK id zero"), ("40026000", True, "PUBACK foreign id space"), ("40028005", True, "PUBACK out of order"),
+    ("400100", True, "PUBACK short"), ("4003800000", True, "PUBACK long"), ("5002c005", True, "PUBREC out of order"),
+    ("50020000", True, "PUBREC id zero"), ("7002c000", True, "PUBCOMP without PUBREL"), ("70028000", True, "PUBCOMP foreign space"),
+    ("9003600003", True, "SUBACK illegal return code"), ("9003000000", True, "SUBACK id zero"), ("9003400000", True, "SUBACK foreign space"),
+    ("90026000", True, "SUBACK without codes"), ("90037ff000", False, "SUBACK unknown id (tolerated)"),
+    ("b0026000", True, "UNSUBACK with SUBSCRIBE id"), ("b0020000", True, "UNSUBACK id zero"), ("b0025ff0", False, "UNSUBACK unknown id (tolerated)"),
+    ("b003400000", True, "UNSUBACK long"), ("d00100", True, "PINGRESP with payload"), ("d000", False, "wandering PINGRESP (tolerated)"),
+    ("36050001740001", True, "PUBLISH QoS 3"), ("3003000574", True, "PUBLISH topic exceeds packet"), ("32050001740000", True, "PUBLISH id zero"),
+    ("3203000174", True, "PUBLISH QoS 1 without id"), ("62020000", True, "PUBREL id zero"), ("62020009", False, "PUBREL unknown id (tolerated)"),
+    ("620100", True, "PUBREL short"), ("3000", True, "PUBLISH without topic length"),
+]
+
+
+def fam_hostile(rnd, i, thorough):
+    b = fam_req(rnd, i, thorough)
+    if rnd.random() < 0.6:
+        b["procs"]["v1"] = {"kind": "script", "ops": [{"m": rnd.choice(PERSISTED[:2]), "tag": 50 + k, "size": 8} for k in range(rnd.choice([1, 2]))]}
+    b["id"] = "hostile-%d" % i
+    inj = []
+    for _ in range(rnd.choice([1, 1, 2, 3])):
+        if rnd.random() < 0.15:
+            raw = bytes(rnd.randrange(256) for _ in range(rnd.choice([1, 2, 3, 5, 8])))
+            inj.append({"hex": raw.hex(), "violation": False, "note": "random bytes"})
+        else:
+            h = rnd.choice(HOSTILE)
+            inj.append({"hex": h[0], "violation": h[1], "note": h[2]})
+    b["random"].update({"hostile": inj, "faults": rnd.choice([0, 0, 1]), "pstall": 0.1})
+    return b
+
+
 def fam_wrap(rnd, i, thorough):
     """Sequence numbers next to the 14-bit wrap: resends, stops and adoptions with the pending range straddling it."""
     b = fam_restart(rnd, i, thorough) if rnd.random() < 0.6 else fam_out(rnd, i, thorough)
@@ -150,7 +189,7 @@ def fam_wrap(rnd, i, thorough):
     return b
 
 
-GEN = {"wrap": fam_wrap, "out": fam_out, "restart": fam_restart, "req": fam_req, "close": fam_close, "in": fam_in, "connect": fam_connect,
+GEN = {"hostile": fam_hostile, "wrap": fam_wrap, "out": fam_out, "restart": fam_restart, "req": fam_req, "close": fam_close, "in": fam_in, "connect": fam_connect,
        "damage": lambda r, i, t: fam_restart(r, i, t, damage=True),
        "inrestart": lambda r, i, t: fam_in(r, i, t, restart=True)}
 
@@ -289,6 +328,13 @@ def execute_and_judge(ctx, binary, behs, confirm=True):
             continue
         b2 = dict(beh)
         path = ctx.save_replay("%s-%s.json" % (clause, beh["id"]), {"behaviour": b2, "clause": clause, "event_seq": seq, "signature": sig})
+        try:   # the recorded trace of that execution, for diagnosis
+            with open(path[:-5] + ".trace", "w") as out, open(tp) as f:
+                for line in f:
+                    if ('"case":%d,' % cid) in line or ('"case":%d}' % cid) in line:
+                        out.write(line)
+        except OSError:
+            pass
         ctx.violation(clause, "behaviour=%s event=%s %s" % (beh["id"], seq, json.dumps(sig)[:200]), replay=path, sig=sig)
     ctx.cov["predicate_failures"] = {"%s@%s/%s" % k: v for k, v in seen.items()}
 
